@@ -134,6 +134,69 @@ def run_config(c, start, evs, host, spied, live_spy=False, live_trace=False, bui
     return per_step, final, err
 
 
+def run_chatty(n_lines, live, first=True, max_steps=60000):
+    """an active object whose start state's entry action scribbles `n_lines` times, started from a managed thread; returns
+    (actions seen, start_at returned?, errors)"""
+    log, errors, res = [], [], {}
+    with dsched.Installed():
+        sched = dsched.Sched(dsched.round_robin_chooser(), max_steps=max_steps, trace=False)
+        dsched.Sched.current = sched
+        try:
+            c = charts.GenChart(2, {1: 0, 2: 1}, {1: {0: ("T", 2)}, 2: {0: ("T", 1)}}, {1: 2}, nsig=1)
+
+            def eff(chart, i, kind, e):
+                if i == 1 and kind == "en":
+                    for k in range(n_lines):
+                        chart.scribble("line %d" % k)
+            fns = c.build(log, spied=True, effects=eff)
+
+            def driver():
+                if not first:
+                    other = mao.ActiveObject(name="first")           # some other active object already runs (and the writer with it)
+                    other.start_at(charts.GenChart(1, {1: 0}, {1: {}}, {}, nsig=1).build([], spied=True)[1])
+                ao = mao.ActiveObject(name="A")
+                ao.live_spy, ao.live_trace = live, live
+                ao.register_live_spy_callback(lambda line: None)
+                ao.register_live_trace_callback(lambda line: None)
+                ao.start_at(fns[1])
+                res["started"] = True
+                for _ in range(3):
+                    ao.post_fifo(charts.ev(0))
+                me = sched.me()
+                sched.yield_point("driver.settle", enabled=lambda: all(t is me or t.finished or not sched.is_enabled(t) for t in sched.threads))
+                res["final"] = ao.state.fun.__name__ if hasattr(ao.state.fun, "__name__") else None
+            sched.spawn(driver, (), name="D")
+            res["outcome"] = sched.run()
+            for t in sched.threads:
+                if t.error is not None:
+                    errors.append("%s: %s: %s" % (t.name, type(t.error).__name__, t.error))
+        finally:
+            sched.shutdown()
+    return visible(log), res, errors
+
+
+def explore_chatty_start(run):
+    """C18 with a start step that logs several hundred spy lines (an entry action that scribbles): with live output on, the same
+    actions run and the chart ends in the same state as with live output off; start_at returns (oracle only)"""
+    rng = run.rng
+    for n_lines in (rng.choice([120, 200]), rng.choice([248, 249, 250]), rng.choice([251, 260, 400])):
+        first = rng.random() < 0.7
+        ref = run_chatty(n_lines, False, first)
+        got = run_chatty(n_lines, True, first)
+        cj = {"probe": "chatty-start", "lines": n_lines, "first_active_object": first}
+        run.count("start step with %d scribbles, live output on vs off" % n_lines)
+        run.traces_validated += 2
+        if got[2] or ref[2]:
+            run.violate("C18/chatty-start-error", "entry action scribbling %d lines: %s" % (n_lines, (got[2] or ref[2])[:2]), cj)
+        elif not got[1].get("started") or got[0] != ref[0] or got[1].get("final") != ref[1].get("final"):
+            run.violate("C18/behaviour-differs/live-output/chatty-start", "an active object whose start state's entry action scribbles %d lines%s: "
+                        "with live spy and live trace on %s and %d actions ran (final %s); with live output off start_at returned, %d actions ran "
+                        "(final %s)" % (n_lines, " (first active object of the process)" if first else "",
+                                        "start_at returned" if got[1].get("started") else "start_at never returned", len(got[0]), got[1].get("final"),
+                                        len(ref[0]), ref[1].get("final")), cj)
+        run.case(cj, nontrivial=True)
+
+
 def flat(steps):
     return [x for s in steps for x in s]
 
@@ -248,6 +311,9 @@ def make(log, return_status, signals):
 
 def replay(case):
     cc = case.get("case", case)
+    if cc.get("probe") == "chatty-start":
+        print(run_chatty(cc["lines"], True, cc["first_active_object"])[1:], run_chatty(cc["lines"], False, cc["first_active_object"])[1:])
+        return 0
     if "probe" in cc:
         class R:
             def __getattr__(self, k):
